@@ -213,6 +213,8 @@ ReqOf(ev) ==
      [] ev.op = "CliRun" -> ReqCli(ev.be, ev.args.opts, ev.obs)
      [] ev.op = "ImportCa" -> ReqImportEv(ev)
      [] ev.op = "Chain" -> ReqChain(ev.args, ev.out, ev.obs)
+     [] ev.op = "PemContent" ->
+          { <<"C14.label_matches_content", ev.obs.label = "PRIVATE KEY" <=> ev.obs.contentIsPkcs8>> }
      [] ev.op = "Pem" -> (IF ev.out = "Ok" THEN ReqPem(ev.args, ev.obs) ELSE {<<"C14.pem_produced", FALSE>>})
      [] ev.op \in {"KeyLoad", "AlgTable"} -> ReqKeyEv(ev)
      [] ev.op = "KeyGen" -> ReqKeyGen(ev.be, ev.args, ev.out, ev.obs)
